@@ -22,6 +22,8 @@ package service
 //@   ensures[C18.stringparam_string]  has(m, p) && is(m[p], string) ==> result2 == nil && result1 && result0 == m[p].(string)
 //@   ensures[C18.stringparam_not_given_ok] !result1 && !required ==> result2 == nil
 //@   ensures[C18.stringparam_illtyped] has(m, p) && !is(m[p], string) && !is(m[p], []interface{}) ==> result2 != nil
+//@   ensures[C18.stringparam_array_of_strings_only] has(m, p) && is(m[p], []interface{}) && result2 == nil ==> forall(k, int, 0 <= k && k < len(m[p].([]interface{})) ==> is(m[p].([]interface{})[k], string))
+//@   loop 1: invariant[C18.stringparam_array_loop] forall(k, int, 0 <= k && k <= rangeindex ==> is(m[p].([]interface{})[k], string))
 //@   ghost-ensures failed == (old(failed) || result2 != nil)
 //@   also-modifies failed
 //@ func getMapParam
